@@ -28,7 +28,7 @@ type c11Case struct {
 	Name     string
 	Calls    []c11Call
 	Flags    []string
-	Reserved bool // the user defines and calls a function named like a would-be helper
+	Reserved int // 0: nothing; 1: the user defines and calls functions named like the first would-be helpers (prefix_); 2: named exactly like the bare plugin prefixes
 	Conflict bool
 	Dup      bool
 }
@@ -37,9 +37,14 @@ var c11Types = []string{"*A", "*B", "*C"}
 var c11Names = [][]string{{"deriveEqual", "deriveEqualX", "deriveEqual_"}, {"deriveHash", "deriveHashX", "deriveHash_"}}
 var c11NamesReserved = [][]string{{"deriveEqual", "deriveEqualX", "deriveEqualY"}, {"deriveHash", "deriveHashX", "deriveHashY"}}
 
+var c11NamesBare = [][]string{{"deriveEqualZ", "deriveEqualX", "deriveEqualY"}, {"deriveHashZ", "deriveHashX", "deriveHashY"}}
+
 func (cs *c11Case) names() [][]string {
-	if cs.Reserved {
+	switch cs.Reserved {
+	case 1:
 		return c11NamesReserved
+	case 2:
+		return c11NamesBare
 	}
 	return c11Names
 }
@@ -47,8 +52,11 @@ func (cs *c11Case) names() [][]string {
 func (cs *c11Case) source() string {
 	var sb strings.Builder
 	sb.WriteString("package p\n\ntype A struct{ X int }\n\ntype B struct{ Y string }\n\ntype C struct{ Z []int }\n\n")
-	if cs.Reserved {
+	if cs.Reserved == 1 {
 		sb.WriteString("// hand-written functions occupying the first helper names goderive would mint\nfunc deriveEqual_(x int) int { return x }\n\nfunc deriveHash_(x int) int { return x }\n\nvar _ = deriveEqual_(1) + deriveHash_(2)\n\n")
+	}
+	if cs.Reserved == 2 {
+		sb.WriteString("// hand-written functions named exactly like the plugin prefixes\nfunc deriveEqual(x int) int { return x }\n\nfunc deriveHash(x int) int { return x }\n\nvar _ = deriveEqual(1) + deriveHash(2)\n\n")
 	}
 	for i, cl := range cs.Calls {
 		T := c11Types[cl.Type]
@@ -149,16 +157,16 @@ func c11Cases(c *Ctx) []c11Case {
 	var out []c11Case
 	for si, s := range seqs {
 		for fi, fl := range flagSets {
-			for _, res := range []bool{false, true} {
+			for res := 0; res < 3; res++ {
 				cs := c11Case{Calls: s, Flags: fl, Reserved: res}
 				cs.classify()
 				if c.Quick {
 					// seed-rotated slice: keep every clash-free singleton out, sample the rest
-					h := (si*7 + fi*3 + map[bool]int{false: 0, true: 1}[res] + int(c.Seed)) % 9
-					if h != 0 && !(len(s) <= 2 && !res) {
+					h := (si*7 + fi*3 + res + int(c.Seed)) % 9
+					if h != 0 && !(len(s) <= 2 && res == 0) {
 						continue
 					}
-				} else if res && si%3 != 0 {
+				} else if res > 0 && si%3 != 0 {
 					continue
 				}
 				cs.Name = fmt.Sprintf("c11-%05d", len(out))
@@ -257,7 +265,7 @@ func checkC11(c *Ctx) {
 		o := outs[i]
 		c.Run.Eval(1)
 		want := cs.expect()
-		class := fmt.Sprintf("flags=%s|conflict=%v|dup=%v|reserved=%v", strings.Join(cs.Flags, ""), cs.Conflict, cs.Dup, cs.Reserved)
+		class := fmt.Sprintf("flags=%s|conflict=%v|dup=%v|reserved=%d", strings.Join(cs.Flags, ""), cs.Conflict, cs.Dup, cs.Reserved)
 		viol := func(sym, detail string) {
 			c.Run.Violate(report.Violation{
 				Key: class + "|" + sym, Summary: cs.desc() + ": " + sym, Detail: detail,
